@@ -6,6 +6,8 @@ pub mod breq;
 pub mod c07;
 pub mod c08;
 pub mod c10;
+pub mod c11;
+pub mod daemon;
 pub mod client;
 pub mod hostile;
 pub mod props_w;
@@ -110,6 +112,7 @@ pub fn all() -> Vec<PropDef> {
     v.push(c07::def());
     v.push(c08::def());
     v.push(c10::def());
+    v.push(c11::def());
     v.push(fe::def_c02());
     v.push(fe::def_c03());
     v.push(breq::def_c18());
